@@ -15,6 +15,13 @@ template <class O>
 void run(ReplayCtx& ctx, const std::string& oname) {
   const char* e = std::getenv("VF_IDS");
   std::string ids = e ? e : "both";
+#if VF_FAMILY == 2
+  // representative cycles are computed under the assumption that identifiers equal positions
+  // (chain_rep_cycles.h says so in a comment; known finding C08-ids-not-positions, witnessed with VF_IDS=gap)
+  if (ids != "gap") run1<O, IdPos>(ctx, oname);
+  else run1<O, IdGap>(ctx, oname);
+  return;
+#endif
   if constexpr (O::flavour == FL_RU && O::has_vine_update) {
     // RU matrices with vine updates address U with R's row labels: identifiers must equal positions
     // (known finding C06-ru-vine-ids, witnessed separately with VF_IDS=gap)
@@ -38,6 +45,13 @@ void per_column_type(ReplayCtx& ctx, const std::string& cn) {
   run<PmOpt<FL_RU, Z2, ct, IX::POSITION, false, true, true, RA, false, true>>(ctx, "RU/" + cn + "/" + z + "/pos/row/map");
   run<PmOpt<FL_RU, Z2, ct, IX::IDENTIFIER, false, true, true, 0, false, true>>(ctx, "RU/" + cn + "/" + z + "/id/map");
   run<PmOpt<FL_CHAIN, Z2, ct, IX::CONTAINER, false, false, true, 0, false, false>>(ctx, "CH/" + cn + "/" + z + "/cont");
+  run<PmOpt<FL_CHAIN, Z2, ct, IX::POSITION, false, true, true, RA, RA != 0, true>>(ctx, "CH/" + cn + "/" + z + "/pos/row/map");
+  run<PmOpt<FL_CHAIN, Z2, ct, IX::IDENTIFIER, false, true, true, 0, false, true>>(ctx, "CH/" + cn + "/" + z + "/id/map");
+#elif VF_FAMILY == 2  // C08: flavours offering representative cycles
+  run<PmOpt<FL_RU, Z2, ct, IX::CONTAINER, false, true, true, 0, false, false>>(ctx, "RU/" + cn + "/" + z + "/cont");
+  run<PmOpt<FL_RU, Z2, ct, IX::POSITION, false, true, true, RA, false, true>>(ctx, "RU/" + cn + "/" + z + "/pos/row/map");
+  run<PmOpt<FL_RU, Z2, ct, IX::IDENTIFIER, false, true, true, 0, false, true>>(ctx, "RU/" + cn + "/" + z + "/id/map");
+  run<PmOpt<FL_CHAIN, Z2, ct, IX::CONTAINER, false, true, true, 0, false, true>>(ctx, "CH/" + cn + "/" + z + "/cont/map");
   run<PmOpt<FL_CHAIN, Z2, ct, IX::POSITION, false, true, true, RA, RA != 0, true>>(ctx, "CH/" + cn + "/" + z + "/pos/row/map");
   run<PmOpt<FL_CHAIN, Z2, ct, IX::IDENTIFIER, false, true, true, 0, false, true>>(ctx, "CH/" + cn + "/" + z + "/id/map");
 #else               // C06: vine updates (Z2 only)
